@@ -1,10 +1,11 @@
 import T4V.Proofs.GeomParse
+import T4V.Proofs.NormLayoutTree
 /-!
 # Property C11 — cell expressions denote the Boolean function MCNP assigns to them
 
 Model: `T4V.Text.GeomParse` (`normalize`, PEG parser, `GeomSemantics`), `T4V.Model.Tree`
 (`GeomExpression.inverse`, `pot_complement`).  All statements are for every expression of every
-size and every assignment of senses.
+size, every legal spacing and every assignment of senses.
 -/
 namespace T4V.C11
 open T4V
@@ -44,6 +45,23 @@ theorem complement_elimination (cells : List CellGeom) (hc : CellsOK cells) (σ 
   let r := potComplement_eval cells hc σ cv fuel g g' hz h
   ⟨r.1 hn, r.2.2⟩
 
+/-- (0) **Spacing**: `normalize` (the nine regex passes of `parsegeom.normalize`, character by character) maps every
+legal layout of an expression — any run of the six ASCII blanks, possibly empty, after every token and in front;
+at least one blank between two surface literals, or between a cell number `#n` and a literal, that follow each other
+— to the canonical spelling of the expression: `*` for the implicit intersection, `_(`/`^(n)` for the complements. -/
+theorem normalize_any_layout (u : NL.LU) (g0 : List Char) (hw : u.erase.WF) (hg : u.GapsWs) (h0 : NL.AllWs g0)
+    (hl : NL.LegalFrom none g0 u.toks) : normalize (u.text g0) = u.erase.chars :=
+  NL.normalize_layout u g0 hw hg h0 hl
+
+/-- (0)+(1)+(2): **any legal spacing of the expression** is normalised and parsed to a tree that evaluates to MCNP's
+Boolean function of the expression, for every assignment of senses -/
+theorem layout_meaning (σ : SurfVal) (cv : Nat → Bool) (u : NL.LU) (g0 : List Char) (g : Geom) (hw : u.erase.WF)
+    (hz : u.erase.NZ) (hg : u.GapsWs) (h0 : NL.AllWs g0) (hl : NL.LegalFrom none g0 u.toks)
+    (ht : u.erase.tree = some g) :
+    ∃ g', pUnion u.erase.cost (normalize (u.text g0)) = .ok (g', []) ∧ g'.eval σ cv = u.erase.eval σ cv := by
+  rw [normalize_any_layout u g0 hw hg h0 hl]
+  exact parse_meaning σ cv u.erase g hw hz ht
+
 /-! Non-vacuity: a concrete expression `-1 (2:-3.1) #(4 5) #7` meets every hypothesis. -/
 def exLit (neg : Bool) (d : Char) (facet : Option Char) : Lit :=
   { sign := if neg then some true else none, ds := [d], facet }
@@ -62,5 +80,25 @@ example : exU.NZ := by
 example : exU.tree.isSome = true := by
   simp [exU, SU.tree, SI.tree, SO.tree, treesIs, treesOs, Geom.inverse, Geom.inverseList, foldUnion,
     foldInter, Lit.geom]
+
+/-! Non-vacuity of the spacing theorem: `  -1(2 :\t-3.1 )#  ( 4  5)# 7 ` is a legal layout of `exU`
+(no blank between `-1` and `(`, between `)` and `#`; a tab after the colon; blanks inside `#  (` and `# 7`). -/
+def exL : NL.LU :=
+  .mk (.mk [] (.lit (exLit true '1' none) [])
+        [ .par [] (.mk (.mk [] (.lit (exLit false '2' none) [' ']) [])
+                      [.mk ['\t'] (.lit (exLit true '3' (some '1')) [' ']) []]) [],
+          .compl [' ', ' '] [' '] (.mk (.mk [] (.lit (exLit false '4' none) [' ', ' ']) [.lit (exLit false '5' none) []]) []) [],
+          .ccell [' '] ['7'] [' '] ]) []
+
+example : exL.erase = exU := rfl
+example : exL.text [' ', ' '] = "  -1(2 :\t-3.1 )#  ( 4  5)# 7 ".toList := by decide
+example : normalize (exL.text [' ', ' ']) = exU.chars :=
+  normalize_any_layout exL [' ', ' ']
+    (by simp [exL, NL.LU.erase, NL.LI.erase, NL.LO.erase, NL.eraseIs, NL.eraseOs, SU.WF, SI.WF, SO.WF, wfIs, wfOs, Lit.WF,
+      exLit, Char.isDigit])
+    (by simp [exL, NL.LU.GapsWs, NL.LI.GapsWs, NL.LO.GapsWs, NL.gapsWsIs, NL.gapsWsOs, NL.AllWs, NL.LI.gc, isWs])
+    (by simp [NL.AllWs, isWs])
+    (by simp [exL, NL.LU.toks, NL.LI.toks, NL.LO.toks, NL.toksIs, NL.toksOs, NL.LegalFrom, NL.isLitO, NL.LI.gc, exLit,
+      Lit.chars, Char.isDigit])
 
 end T4V.C11
